@@ -17,8 +17,8 @@ from ebpfcat.xdp import XDP  # noqa: E402
 PROPERTY = "C06"
 LEVEL = "exploration"
 RULE = ("for every fmt in i I q Q x, memory kind in {array-map variable, "
-        "Dict value member (shared); stack variable, per-CPU variable "
-        "(private)} and amount in {constant, negative constant via -=, "
+        "Dict value member, per-CPU variable as seen by the instances on "
+        "one CPU (shared); stack variable (private)} and amount in {constant, negative constant via -=, "
         "register, expression, fixed constant} the single statement is "
         "compiled by the real generator. Leg 1: 2 instances over ALL "
         "interleavings of the statement's instructions and 3 instances over "
@@ -40,8 +40,10 @@ MIN_EVALUATIONS = {"quick": 500, "thorough": 20000}
 FMTS = ["i", "I", "q", "Q", "x"]
 AMOUNTS = ["const", "negconst", "isub", "reg", "expr", "fixedconst",
            "isubreg", "isubexpr", "var_i", "isubvar_i", "var_I", "regw",
-           "isubregw", "isubfixedconst", "var_q", "local_i"]
-FIXED_ONLY = ("fixedconst", "isubfixedconst")
+           "isubregw", "isubfixedconst", "var_q", "local_i",
+           "var_x", "isubvar_x", "isubxexpr"]
+FIXED_ONLY = ("fixedconst", "isubfixedconst", "var_x", "isubvar_x",
+              "isubxexpr")
 KINDS = ["array", "dict", "local", "percpu"]
 
 
@@ -72,6 +74,7 @@ def build(fmt, kind, amount, amount_value):
     ns["amt"] = m.globalVar("q")
     ns["amt_i"] = m.globalVar("i")
     ns["amt_I"] = m.globalVar("I")
+    ns["amt_x"] = m.globalVar("x")
     if amount == "local_i":
         ns["lamt"] = LocalVar("i")
     ns["out"] = m.globalVar("Q")
@@ -148,6 +151,12 @@ def build(fmt, kind, amount, amount_value):
                 cur -= e.w8
             elif amount == "local_i":
                 cur += e.lamt
+            elif amount == "var_x":
+                cur += e.amt_x
+            elif amount == "isubvar_x":
+                cur -= e.amt_x
+            elif amount == "isubxexpr":
+                cur -= e.amt_x * 2
             setattr(obj, name, cur)
         if kind == "dict":
             do(value, "c")
@@ -195,6 +204,12 @@ def amount_raw(fmt, amount, amount_value, amt_in):
         d = amt_in & 0xffffffff
     elif amount == "isubregw":
         d = -(amt_in & 0xffffffff)
+    elif amount == "var_x":
+        return amt_in           # fixed-point amounts: raw units
+    elif amount == "isubvar_x":
+        return -amt_in
+    elif amount == "isubxexpr":
+        return -2 * amt_in
     return d * FB if fmt == "x" else d
 
 
@@ -276,7 +291,10 @@ def explore(fmt, kind, amount, res, rng, tier, amount_value=None):
             m = e.__dict__["m"]
             mask = (1 << (8 * size)) - 1
             delta = amount_raw(fmt, amount, amount_value, amt_in)
-            shared = kind in ("array", "dict")
+            # a per-CPU variable is shared by the instances that run on one
+            # CPU (a program preempted by another instance of itself); the
+            # reference machine's per-CPU map is one CPU's copy
+            shared = kind in ("array", "dict", "percpu")
             ninst_list = [1] if not shared else [2, 3]
             inits = [0, 1, mask, mask >> 1, rng.getrandbits(8 * size)]
             if tier == "quick":
@@ -291,6 +309,8 @@ def explore(fmt, kind, amount, res, rng, tier, amount_value=None):
                     m[pos:pos + 4] = struct.pack("<i", amt_in)
                     pos = e.__dict__["amt_I"]
                     m[pos:pos + 4] = struct.pack("<I", amt_in & 0xffffffff)
+                    pos = e.__dict__["amt_x"]
+                    m[pos:pos + 8] = struct.pack("<q", amt_in)
                     pos = e.__dict__["cellinit"]
                     m[pos:pos + 8] = struct.pack("<Q", init)
                     vms = [ebpfvm.VM(mem, ebpfvm.Program(ld.code, f"i{i}"),
@@ -462,6 +482,8 @@ def stress(res, tier, rng):
                 m[pos:pos + 4] = struct.pack("<i", amt_in)
                 pos = e.__dict__["amt_I"]
                 m[pos:pos + 4] = struct.pack("<I", amt_in & 0xffffffff)
+                pos = e.__dict__["amt_x"]
+                m[pos:pos + 8] = struct.pack("<q", amt_in)
                 mask = (1 << (8 * size)) - 1
                 init = rng.getrandbits(8 * size)
                 if kind == "array":
